@@ -94,6 +94,18 @@ def _sync_workspace(ws, manifest_name="Cargo.toml", nightly=False):
             f.write(h)
 
 
+def _seed_target(target, main_name):
+    """A scratch copy (VERIF_REPO) starts from a copy of the main target dir so that only hdwallet itself is recompiled."""
+    main = os.path.join(BUILD, main_name)
+    if not os.path.exists(target) and os.path.isdir(main) and main != target:
+        tmp = target + ".seeding%d" % os.getpid()
+        try:
+            subprocess.run(["cp", "-a", "--reflink=auto", main, tmp], check=True, stdout=subprocess.DEVNULL, stderr=subprocess.DEVNULL)
+            os.rename(tmp, target)
+        except Exception:
+            shutil.rmtree(tmp, ignore_errors=True)
+
+
 def build_driver(profile, want_hooks=True):
     """Returns (binary path, hooks_enabled, seconds). profile: 'dev'|'release'."""
     assert profile in ("dev", "release")
@@ -102,6 +114,7 @@ def build_driver(profile, want_hooks=True):
     target = os.path.join(BUILD, "target-driver-" + key)
     with _Lock("driver-" + key):
         _sync_workspace(ws)
+        _seed_target(target, "target-driver-main")
         env = _env()
         base = ["cargo", "build", "--offline", "--target-dir", target]
         if profile == "release":
@@ -139,6 +152,7 @@ def build_cli(profile):
     key = _key()
     target = os.path.join(BUILD, "target-cli-" + key)
     with _Lock("cli-" + key):
+        _seed_target(target, "target-cli-main")
         env = _env()
         cmd = ["cargo", "build", "--offline", "--bin", "hdwallet", "--target-dir", target,
                "--manifest-path", os.path.join(repo_path(), "Cargo.toml")]
